@@ -17,7 +17,10 @@
    both <pat> <alphabet> <k>     -> first word w (hex) over the alphabet, |w| <= k, with
                                     str_match pat w && is_c_number w, or "none"
    mmn <pat> -> "<b> <err>" | "P" | "F"
-   cm <pat> -> CanMatch of the compiled pattern: 1 0 E P F *)
+   cm <pat> -> CanMatch of the compiled pattern: 1 0 E P F
+   ixt <expr tokens> -- <s1> ... <sn>
+      expr in prefix form: I <expr> <expr> (Intersect) | L<hex pattern> (Compile) | N (Number());
+      -> "<c> <canmatch> <nstates> <model bits> <spec bits: conjunction over all leaves>" like ix *)
 let words (alpha : n list) (maxlen : int) : n list list =
   let rec go k acc prev =
     if k > maxlen then List.rev acc else
@@ -60,8 +63,48 @@ let num (ws : n list list) : string =
     str_of_chars (List.map (fun w -> bit_res (matchp number w)) ws) ^ " "
     ^ str_of_chars (List.map (fun w -> if is_c_number w then '1' else '0') ws)
 
+(* intersection trees: the operands of Intersect may themselves be products or Number() *)
+type itree = IL of n list | IN | II of itree * itree
+let rec parse_itree (toks : string list) : itree * string list =
+  match toks with
+  | "I" :: r -> let (a, r1) = parse_itree r in let (b, r2) = parse_itree r1 in (II (a, b), r2)
+  | "N" :: r -> (IN, r)
+  | t :: r when String.length t >= 1 && t.[0] = 'L' -> (IL (bytes_of_hex (String.sub t 1 (String.length t - 1))), r)
+  | _ -> failwith "bad itree"
+type mres = MK of pattern | MErr of char
+let rec itree_model (t : itree) : mres =
+  match t with
+  | IL p -> (match compile p with Ok (Some a) -> MK a | Ok None -> MErr 'E' | Panic -> MErr 'P' | OutOfFuel -> MErr 'F')
+  | IN -> MK number
+  | II (a, b) ->
+    (match itree_model a with
+     | MK x ->
+       (match itree_model b with
+        | MK y -> (match intersect x y with Ok i -> MK i | Panic -> MErr 'P' | OutOfFuel -> MErr 'F')
+        | r -> r)
+     | r -> r)
+let rec itree_spec (t : itree) (w : n list) : bool option =
+  match t with
+  | IL p -> str_match p w
+  | IN -> Some (is_c_number w)
+  | II (a, b) -> (match itree_spec a w, itree_spec b w with Some x, Some y -> Some (x && y) | _, _ -> None)
+let rec itree_tricky (t : itree) : bool =
+  match t with IL p -> range_to_rbracket p | IN -> false | II (a, b) -> itree_tricky a || itree_tricky b
+let ixt (t : itree) (ws : n list list) : string =
+  let spec = str_of_chars (List.map (fun w -> bit_opt (itree_spec t w)) ws) in
+  match itree_model t with
+  | MK i ->
+    "K " ^ String.make 1 (bit_res (can_match i)) ^ " " ^ string_of_int (List.length i) ^ " "
+    ^ str_of_chars (List.map (fun w -> bit_res (matchp i w)) ws) ^ " " ^ spec ^ " " ^ b01 (itree_tricky t)
+  | MErr c -> String.make 1 c ^ " - 0 - " ^ spec
+
 let handle (args : string list) : string =
   match args with
+  | "ixt" :: rest ->
+    let (t, r) = parse_itree rest in
+    (match r with
+     | "--" :: ws -> ixt t (List.map bytes_of_hex ws)
+     | _ -> "ERR:bad ixt request")
   | ["pm"; p; alpha; maxlen] -> pm (bytes_of_hex p) (words (bytes_of_hex alpha) (int_of_string maxlen))
   | "ms" :: p :: ws -> pm (bytes_of_hex p) (List.map bytes_of_hex ws)
   | ["ix"; p; q; alpha; maxlen] -> ix (bytes_of_hex p) (bytes_of_hex q) (words (bytes_of_hex alpha) (int_of_string maxlen))
